@@ -156,19 +156,51 @@ func c45Progress(c *Ctx) {
 	if f == nil {
 		return
 	}
+	isNext := func(n string) bool { return strings.HasSuffix(n, "packet.Reader).Next") }
 	un := calls(f, func(n string) bool { return strings.HasSuffix(n, "packet.Reader).Unread") })
-	// the "first packet is a key" edges: successful type assertions to *packet.PublicKey / *packet.PrivateKey of the first packet
+	nexts := calls(f, isNext)
+	// the first Next: the one whose block dominates every other Next call
+	var first *ssa.Call
+	for _, a := range nexts {
+		ac, ok := a.(*ssa.Call)
+		if !ok {
+			continue
+		}
+		dom := true
+		for _, b := range nexts {
+			if a != b && !(a.Block().Dominates(b.Block())) {
+				dom = false
+			}
+		}
+		if dom {
+			first = ac
+		}
+	}
+	if first == nil {
+		c.undecided("C45.progress", "ReadEntity first Next", f, "no Next call dominates the others")
+		return
+	}
+	// packetOrigin: the Next call whose first result is the pushed-back value
+	origin := func(v ssa.Value) *ssa.Call {
+		v = stripConv(v)
+		if ex, ok := v.(*ssa.Extract); ok && ex.Index == 0 {
+			if cl, ok := ex.Tuple.(*ssa.Call); ok && isNext(calleeName(&cl.Call)) {
+				return cl
+			}
+		}
+		return nil
+	}
+	// edges on which the FIRST packet is known to be a *packet.PublicKey (the
+	// only thing readToNextPublicKey pushes back instead of consuming)
 	var isKey []edge
 	allInstrs(f, func(in ssa.Instruction) {
 		ta, ok := in.(*ssa.TypeAssert)
-		if !ok || !ta.CommaOk {
+		if !ok || !ta.CommaOk || origin(ta.X) != first {
 			return
 		}
-		t := ta.AssertedType.String()
-		if !(strings.HasSuffix(t, "packet.PublicKey") || strings.HasSuffix(t, "packet.PrivateKey")) {
+		if !strings.HasSuffix(ta.AssertedType.String(), "packet.PublicKey") {
 			return
 		}
-		// only assertions on the FIRST packet: the value asserted is the result of the first Next call
 		for _, r := range *ta.Referrers() {
 			if ex, ok := r.(*ssa.Extract); ok && ex.Index == 1 {
 				y, _ := boolEdges(ex, true)
@@ -176,38 +208,45 @@ func c45Progress(c *Ctx) {
 			}
 		}
 	})
+	avoid := map[*ssa.BasicBlock]bool{}
+	for _, ci := range nexts {
+		avoid[ci.Block()] = true
+	}
 	n := 0
 	for i, u := range un {
-		// does an error return follow this Unread?
-		r := reachAfter(u, nil)
+		// does an error return follow this Unread without a further Next?
+		direct := reachAvoiding(u.Block().Succs, nil, avoid)
 		errAfter := false
 		for _, ret := range returnsOf(f) {
-			if (r[ret.Block()] || ret.Block() == u.Block()) && errNilness(retVal(ret, 1), ret.Block(), 0) == neverNil {
-				// only returns that can be reached without a further successful Next (i.e. directly)
-				direct := reachAvoiding(u.Block().Succs, nil, func() map[*ssa.BasicBlock]bool {
-					av := map[*ssa.BasicBlock]bool{}
-					for _, ci := range calls(f, func(n string) bool { return strings.HasSuffix(n, "packet.Reader).Next") }) {
-						av[ci.Block()] = true
-					}
-					return av
-				}())
-				if direct[ret.Block()] || ret.Block() == u.Block() {
-					errAfter = true
-				}
+			if (direct[ret.Block()] || ret.Block() == u.Block()) && errNilness(retVal(ret, 1), ret.Block(), 0) != definitelyNil {
+				errAfter = true
 			}
 		}
 		if !errAfter {
 			continue
 		}
 		n++
-		// this Unread must be unreachable once the first packet was accepted as a key
-		var starts []*ssa.BasicBlock
-		for _, e := range isKey {
-			starts = append(starts, e.to())
+		args := u.Common().Args
+		var og *ssa.Call
+		if len(args) > 0 {
+			og = origin(args[len(args)-1])
 		}
-		bad := reach(starts, nil)[u.Block()]
-		c.check(!bad, "C45.progress", fmt.Sprintf("ReadEntity Unread#%d followed by an error return", i), u,
-			"only a first packet that is not a key is pushed back before failing", "a primary key packet can be pushed back and the entity then rejected with an error: ReadKeyRing's recovery finds the same key again and never terminates")
+		name := fmt.Sprintf("ReadEntity Unread#%d followed by an error return", i)
+		switch {
+		case og == nil:
+			c.undecided("C45.progress", name, u, "cannot identify which Next produced the pushed-back packet")
+		case og != first:
+			c.ok("C45.progress", name, u, "the pushed-back packet comes from a later Next; the first packet of this entity stays consumed, so ReadKeyRing's recovery starts one primary key further on")
+		default:
+			var starts []*ssa.BasicBlock
+			for _, e := range isKey {
+				starts = append(starts, e.to())
+			}
+			bad := reach(starts, nil)[u.Block()]
+			c.check(!bad, "C45.progress", name, u,
+				"the first packet is pushed back before failing only on the branch where it is not a *packet.PublicKey, so readToNextPublicKey consumes it",
+				"the entity's own primary key packet can be pushed back and the entity then rejected with an error: ReadKeyRing's recovery (readToNextPublicKey) stops at that same key again and never terminates")
+		}
 	}
 	c.check(n >= 1 && len(isKey) >= 1, "C45.progress", "ReadEntity push-back sites", f, fmt.Sprintf("%d push-back-then-fail site(s), all on the not-a-key branch", n), "push-back/first-packet anchors not found")
 	if g := c.fn("openpgp", "readToNextPublicKey"); g != nil {
